@@ -219,7 +219,7 @@ def check_invariants(circ, m):
     for k, lst in circ.node_dict.items():
         if len(lst) != len(set(lst)):
             return "node_dict-duplicates", {"key": k, "list": list(map(str, lst))}
-        if k not in want_nd and lst:
+        if k not in want_nd and lst and not _known_index_key(k):
             # an index key the harness cannot derive from labels / class / register types: only demand that it holds live nodes
             if not set(lst) <= set(dag.nodes):
                 return "node_dict-stale-or-missing", {"key": k, "index": sorted(map(str, lst)), "graph": "(unknown key) contains ids that are not nodes"}
@@ -267,6 +267,21 @@ def check_invariants(circ, m):
     if useq != gq.unwrap_letters(wseq):
         return "unwrapped-sequence", {"unwrapped": useq, "expected": gq.unwrap_letters(wseq)}
     return None
+
+
+_VOCAB = None
+
+
+def _known_index_key(k):
+    """keys whose meaning the harness knows: operation labels used by graphiq, operation class names, register-type descriptions."""
+    global _VOCAB
+    if _VOCAB is None:
+        import inspect
+        import graphiq.circuit.ops as ops
+        _VOCAB = {"one-qubit", "two-qubit", "Fixed", "Input", "Output", "Emitter", "Photonic"}
+        _VOCAB |= {a + "-" + b for a in ("Emitter", "Photonic") for b in ("Emitter", "Photonic")}
+        _VOCAB |= {n for n, c in inspect.getmembers(ops, inspect.isclass)}
+    return k in _VOCAB
 
 
 def index_key(circ, m):
